@@ -84,6 +84,9 @@ def census(ctx, chk, g, reach, label):
                 if a["fn"] in full or a["fn"] in mir_name(full):
                     ent = a
                     break
+            if ent is None and s["kind"] == "assert" and (s["detail"].startswith("Overflow(") or s["detail"] == "BoundsCheck") and range_safe(ctx, g.fns[k], s["detail"]):
+                chk.ok(R2, "%s:%s:auto-range" % (short(full), s["detail"]))
+                continue
             if ent is None:
                 chk.bad(R2, "%s:%s:%s" % (short(full), s["kind"], s["detail"][:50]),
                         "unaudited panic-capable site in %s: %s %s%s" % (full, s["kind"], s["detail"], (" (from %s!)" % s["macro"]) if s["macro"] else ""),
@@ -97,6 +100,40 @@ def census(ctx, chk, g, reach, label):
             chk.ok(R1, "callee:" + c[:80])
     chk.analysed.setdefault("census", {})[label] = {"reachable_functions": len(reach), "external_callees": len(callees), "panic_capable_sites": nsites}
     return found
+
+
+_AST_FN_CACHE = {}
+
+
+def range_safe(ctx, mirfn, kind):
+    """discharge a compiler-inserted overflow check when every arithmetic expression of that kind in the function has operands
+    that are small by construction (interval analysis over the syntax tree: literals, enumerate indices over chunk remainders, ..)"""
+    from . import rangex
+    name = mirfn.get("name")
+    file = mirfn["span"]["file"]
+    if not name or mirfn.get("kind") == "Closure":
+        return False
+    key = id(ctx)
+    if key not in _AST_FN_CACHE:
+        idx = {}
+        for m in ctx.rspirv.modules():
+            for it in ctx.rspirv.items(m):
+                if it["kind"] == "fn":
+                    idx.setdefault(it["name"], []).append(it)
+                elif it["kind"] == "impl":
+                    for x in it["items"]:
+                        if x["kind"] == "fn":
+                            idx.setdefault(x["name"], []).append(x)
+        _AST_FN_CACHE[key] = idx
+    cands = _AST_FN_CACHE[key].get(name, [])
+    if len(cands) != 1:
+        return False
+    try:
+        if kind == "BoundsCheck":
+            return rangex.safe_indexing(cands[0])
+        return rangex.safe_ops(cands[0], kind)
+    except Exception:
+        return False
 
 
 def short(k):
